@@ -95,6 +95,40 @@ class Exec(ExprMixin, CallMixin, BuiltinMixin, StmtMixin):
         b = self.truth(self.spec_call('den', [self.coerce(args[1], ELEM)], path, node), path)
         return VBool(a == b)
 
+    def prim_same_truth_j(self, args, path, node):
+        a = self.truth(self.spec_call('sem', [self.coerce(args[0], NODE)], path, node), path)
+        b = self.truth(self.spec_call('den_j', [self.coerce(args[1], ELEM)], path, node), path)
+        return VBool(a == b)
+
+    def prim_g_same_truth(self, args, path, node):
+        a = self.truth(self.spec_call('sem', [self.coerce(args[0], NODE)], path, node), path)
+        b = self.truth(self.spec_call('g_den', [self.coerce(args[1], ELEM), args[2]], path, node), path)
+        return VBool(a == b)
+
+    def prim_ident_map(self, args, path, node):
+        """ghost: a features mapping in which every feature id maps to an entry whose 'name' is the id itself (what the
+        Glencoe writer produces: ids are the names)"""
+        P = self.ctx.sorts.PyVal
+        c = z3.Const('IDENT_MAP', P)
+        if 'ident_map' not in self.ctx.str_fns:
+            self.ctx.str_fns['ident_map'] = True
+            item = self.uf('py_item', [P, P], P)
+            ofs = self.uf('py_of_str', [z3.StringSort()], P)
+            ass = self.uf('py_as_str', [P], z3.StringSort())
+            s = z3.String('id!')
+            app = item(item(c, ofs(s)), ofs(z3.StringVal('name')))
+            self.ctx.axioms.append(z3.ForAll([s], ass(app) == s, patterns=[app]))
+        return VPy(c)
+
+    def prim_is_text(self, args, path, node):
+        v = args[0]
+        if isinstance(v, VStr):
+            return VBool(True)
+        if isinstance(v, VElem):
+            E = self.ctx.sorts.Elem
+            return VBool(z3.And(E.tag(v.t) == z3.StringVal('#str'), E.has_text(v.t)))
+        return VBool(False)
+
     def prim_kids(self, args, path, node):
         return VElemList(self.ctx.sorts.Elem.kids(self.coerce(args[0], ELEM).t))
 
@@ -151,9 +185,16 @@ class Exec(ExprMixin, CallMixin, BuiltinMixin, StmtMixin):
         return ctx.str_fns['node_size']
 
 
-def collect_enums(index):
+def collect_enums(index, extra=()):
     enums = {}
     mods = [index.module_by_path(S.CORE_AST), index.module_by_path(S.FM)]
+    for p in extra:
+        try:
+            m = index.module_by_path(p)
+            if m is not None and m not in mods:
+                mods.append(m)
+        except Exception:
+            pass
     for m in mods:
         for c in m.classes.values():
             if c.is_enum():
@@ -213,21 +254,74 @@ def prove_lemma(ctx, ex, con, lname, path):
     ctx.inline_all += 1        # opaque results would be constants: not allowed under the quantifier added below
     ctx.naming_off += 1        # the parameters are quantified afterwards: no constants defined in terms of them
     saved = ex.cur_mod
+    reveal_here = lname in getattr(con, 'reveal_in', ())
     try:
-        goal = ex.truth(ex.call_inline_pure(fi, vals, {}, lp), lp)
+        if reveal_here:
+            # the lemma characterises functions that are otherwise used as uninterpreted symbols: the obligation is about
+            # their bodies, the axiom added afterwards is about the symbols
+            ctx.no_as_function = getattr(ctx, 'no_as_function', 0) + 1
+        try:
+            goal = ex.truth(ex.call_inline_pure(fi, vals, {}, lp), lp)
+        finally:
+            if reveal_here:
+                ctx.no_as_function -= 1
+        goal_ax = ex.truth(ex.call_inline_pure(fi, vals, {}, lp), lp) if reveal_here else goal
     finally:
         ctx.spec_mode -= 1
         ctx.naming_off -= 1
         ctx.inline_all -= 1
         ex.cur_mod = saved
-    ctx.oblige(lp, f'lemma:{lname}', f'specification lemma {lname}', goal, fi.node.lineno)
-    ctx.axioms.append(z3.ForAll(formals, z3.Implies(z3.And(*guards) if guards else z3.BoolVal(True), goal)))
+    node_formals = [v for v in vals if isinstance(v, VNode)]
+    if lname in getattr(con, 'induction', ()) and len(node_formals) == 1:
+        # structural induction on the constraint tree (datatype values are finite): the lemma for NNil, and for a node
+        # under the induction hypotheses for its two sub-trees
+        N = ctx.sorts.Node
+        nv = node_formals[0].t
+        ih = z3.And(z3.substitute(goal, (nv, N.left(nv))), z3.substitute(goal, (nv, N.right(nv))))
+        ctx.oblige(lp.fork(nv == N.NNil), f'lemma:{lname}', f'specification lemma {lname} (induction base: no tree)', goal, fi.node.lineno)
+        ctx.oblige(lp.fork(nv != N.NNil), f'lemma:{lname}', f'specification lemma {lname} (induction step over the two sub-trees)', goal,
+                   fi.node.lineno, extra_hyps=[ih])
+    else:
+        ctx.oblige(lp, f'lemma:{lname}', f'specification lemma {lname}', goal, fi.node.lineno)
+    ctx.axioms.append(z3.ForAll(formals, z3.Implies(z3.And(*guards) if guards else z3.BoolVal(True), goal_ax)))
+
+
+def prove_theorem(ctx, ex, con, tname, path):
+    """a theorem over real functions known through their contracts: the body of the @lemma function `tname` is executed like
+    code for arbitrary parameters (callee contracts are applied: preconditions become obligations, postconditions are assumed
+    for the fresh results) and every returning path must return a true value.  Nothing is added to the axioms."""
+    fi = ctx.specs[tname]
+    env, guards = {}, []
+    for a in fi.node.args.args:
+        k = ex.ann_kind(a.annotation, fi)
+        v = ctx.fresh_val('T_' + a.arg, k)
+        env[a.arg] = v
+        if isinstance(v, VRef):
+            guards.append(v.t != ctx.sorts.null(v.cls))
+    tp = Path(tuple(path.pc) + tuple(guards), env)
+    saved_mod, saved_stack = ex.cur_mod, ctx.call_stack
+    ex.cur_mod = fi.module
+    ctx.call_stack = [f'theorem:{tname}']
+    try:
+        ends = ex.exec_block(fi.node.body, tp)
+    finally:
+        ex.cur_mod, ctx.call_stack = saved_mod, saved_stack
+    n = 0
+    for p in ends:
+        if p.exc is not None:
+            ctx.oblige(p, f'lemma:{tname}', f'theorem {tname}: a path raises {p.exc[0]}', z3.BoolVal(False), fi.node.lineno)
+            continue
+        n += 1
+        ret = p.ret if p.ret is not None else VNone()
+        ob = ctx.oblige(p, f'post:theorem_{tname}', f'theorem {tname}', ex.truth(ret, p), fi.node.lineno)
+    if n == 0:
+        raise OutOfReach(f'theorem {tname} has no returning path')
 
 
 def build(index, contracts, specs, rec, fid, keep_ends=False):
     """symbolically execute the function under contract; returns (ctx, ex, info)"""
     con = contracts[fid]
-    sorts = Sorts(collect_enums(index))
+    sorts = Sorts(collect_enums(index, (con.path, S.TR + 'json_writer.py')))
     ctx = Ctx(index, sorts, contracts, specs)
     ctx.spec_recursive = rec
     ctx.spec_defs = {}
@@ -285,6 +379,8 @@ def build(index, contracts, specs, rec, fid, keep_ends=False):
         ex.entry_measure = ex.coerce(ex.eval_clause_val(con, con.decreases, env, path), INT).t
     for lname in con.lemmas:
         prove_lemma(ctx, ex, con, lname, path)
+    for tname in getattr(con, 'theorems', ()):
+        prove_theorem(ctx, ex, con, tname, Path())
     entry_pc = path.pc
     ends = ex.exec_block(fi.node.body, path)
     n_ret = 0
